@@ -457,3 +457,169 @@ Qed.
 Lemma er_vblock : forall b, s2_block b = true -> ui_block b = true ->
   forall stk s, er (vblock true b stk s) = vblock false b stk (er s).
 Proof. intros b. apply er_block. apply Forall_forall. intros x _. apply er_stmt. Qed.
+
+(* ---------- only import statements create use-checkers: the (line, import) pairs of the checker list are unchanged
+   by everything else ---------- *)
+From Verif Require Import Scope.UnusedProofs.
+
+Lemma pairs_mark : forall s c, pairs (mark_used s c) = pairs s.
+Proof. intros. unfold pairs, mark_used. cbn [checkers with_checkers]. apply mark_pairs. Qed.
+Lemma pairs_marks : forall cs s, pairs (fold_left mark_used cs s) = pairs s.
+Proof. induction cs as [|c cs IH]; intro s; cbn. reflexivity. rewrite IH. apply pairs_mark. Qed.
+Lemma pairs_needs_stack : forall ps r s, pairs (snd (needs_stack s r ps)) = pairs s.
+Proof.
+  intros ps r. induction r as [|i r IH]; intro s; cbn [needs_stack]. reflexivity.
+  destruct (first_present (scope_dict s i) ps) as [[|c|cs]|]; cbn [snd]; auto using pairs_mark, pairs_marks.
+Qed.
+Lemma pairs_needs : forall s stk n, pairs (snd (needs s stk n)) = pairs s.
+Proof. intros. unfold needs. apply pairs_needs_stack. Qed.
+Lemma pairs_add_missing : forall s cur ln n, pairs (add_missing s cur ln n) = pairs s.
+Proof. intros. unfold add_missing. destruct (existsb _ _); reflexivity. Qed.
+Lemma pairs_new_scope : forall s k d, pairs (snd (new_scope s k d)) = pairs s.
+Proof. reflexivity. Qed.
+Lemma pairs_push : forall s stk a b c, pairs (snd (push s stk a b c)) = pairs s.
+Proof. intros. unfold push. destruct (new_scope s (if b then KClass else KNormal) []) eqn:E. cbn [snd].
+  change s0 with (snd (n, s0)). rewrite <- E. reflexivity. Qed.
+Lemma pairs_clone_top : forall s stk, pairs (snd (clone_top s stk)) = pairs s.
+Proof. intros. unfold clone_top. destruct (get_scope (scopes s) (top stk)) as [c d]. reflexivity. Qed.
+Lemma pairs_pop : forall s i, pairs (pop s i) = pairs s.
+Proof. intros. unfold pop. destruct (report_unused_shape (scope_dict s i) s) as (u & E). rewrite E. reflexivity. Qed.
+Lemma pairs_check_load : forall s cur stk n ln, pairs (check_load s cur stk n ln) = pairs s.
+Proof.
+  intros. unfold check_load. pose proof (pairs_needs s stk n) as H. destruct (needs s stk n) as [b s1]. cbn [snd] in H.
+  destruct (b && negb (has_star s1 stk)). rewrite pairs_add_missing. exact H. exact H.
+Qed.
+Lemma pairs_defer_load : forall s stk n, pairs (defer_load s stk n) = pairs s.
+Proof.
+  intros. unfold defer_load. pose proof (pairs_needs s stk n) as H. destruct (needs s stk n) as [b s1]. cbn [snd] in H.
+  destruct b; [|exact H]. pose proof (pairs_clone_top s1 stk) as H2. destruct (clone_top s1 stk) as [stk' s2]. cbn [snd] in H2.
+  unfold pairs in *. cbn [checkers with_deferred]. congruence.
+Qed.
+Lemma pairs_load : forall s stk n, pairs (load s stk n) = pairs s.
+Proof. intros. unfold load. destruct (in_fd s). rewrite !pairs_defer_load. reflexivity. apply pairs_check_load. Qed.
+Lemma pairs_set_in_scope : forall s i k v, pairs (set_in_scope s i k v) = pairs s.
+Proof. intros. unfold set_in_scope. destruct (get_scope (scopes s) i). reflexivity. Qed.
+Lemma pairs_store_name : forall s stk n v, pairs (store true s stk [n] v) = pairs s.
+Proof.
+  intros. unfold store. rewrite proper_prefixes_single. cbn [fold_left].
+  destruct (dict_get (scope_dict s (top stk)) [n]) as [[|c|cs]|]; try apply pairs_set_in_scope.
+  destruct (c_used (checker_at s c)); rewrite pairs_set_in_scope; reflexivity.
+Qed.
+Lemma pairs_store_names : forall stk ps s, pairs (fold_left (fun s p => store true s stk [p] Plain) ps s) = pairs s.
+Proof. intros stk ps. induction ps as [|p ps IH]; intro s; cbn [fold_left]. reflexivity. rewrite IH. apply pairs_store_name. Qed.
+Lemma pairs_vtarget : forall t, s1_target t = true -> forall stk s, pairs (vtarget true t stk s) = pairs s.
+Proof. intros t Ht stk s. rewrite vtarget_u1 by exact Ht. apply pairs_store_names. Qed.
+
+Definition PPE (x : expr) : Prop := s2_expr x = true -> forall stk s, pairs (vexpr true x stk s) = pairs s.
+Lemma pairs_vexpr_list : forall es, Forall PPE es -> forallb s2_expr es = true -> forall stk s, pairs (vexpr_list true es stk s) = pairs s.
+Proof.
+  intros es HF. induction HF as [|x es Hx HF IH]; intros Hs stk s. reflexivity.
+  cbn in Hs. apply andb_true_iff in Hs as [H1 H2]. unfold vexpr_list in *. cbn [fold_left]. rewrite IH by exact H2. apply (Hx H1).
+Qed.
+Lemma pairs_with_fd : forall s b, pairs (with_fd s b) = pairs s. Proof. reflexivity. Qed.
+Lemma pairs_with_ln : forall s b, pairs (with_ln s b) = pairs s. Proof. reflexivity. Qed.
+Lemma pairs_vexpr : forall x, PPE x.
+Proof.
+  intro x. induction x using expr_ind' with (Q := fun _ => True); try exact I; unfold PPE; intros Hs stk s.
+  - cbn [vexpr]. apply pairs_load.
+  - cbn [vexpr s2_expr] in *. rewrite vgo_eq_t. rewrite s2go_eq in Hs. apply pairs_vexpr_list; auto.
+  - cbn [vexpr s2_expr] in *. apply IHx. exact Hs.
+  - cbn [s2_expr] in Hs. rewrite s2go_eq in Hs. apply andb_true_iff in Hs as [Hs Hbody]. apply andb_true_iff in Hs as [Hps Hds].
+    rewrite vexpr_lambda_eq_t. pose proof (pairs_push s stk true false false) as E1.
+    destruct (push s stk true false false) as [stkA s1]. cbn [snd] in E1. cbv zeta.
+    set (s3 := fold_left (fun s p => store true s stkA [p] Plain) ps (vexpr_list true ds (removelast stkA) s1)).
+    assert (E3 : pairs s3 = pairs s). { unfold s3. rewrite pairs_store_names, (pairs_vexpr_list ds H Hds). exact E1. }
+    pose proof (pairs_push (with_fd s3 true) stkA false false false) as E4.
+    destruct (push (with_fd s3 true) stkA false false false) as [stkB s4]. cbn [snd] in E4.
+    rewrite pairs_pop, pairs_with_fd, pairs_pop, (IHx Hbody), E4, pairs_with_fd. exact E3.
+  - cbn in Hs. discriminate.
+Qed.
+Lemma all_PPE : forall es, Forall PPE es.
+Proof. intro es. apply Forall_forall. intros x _. apply pairs_vexpr. Qed.
+
+Definition PPS (x : stmt) : Prop := s2_stmt x = true -> noimp_stmt x = true -> forall stk s, pairs (vstmt true x stk s) = pairs s.
+Lemma pairs_block : forall b, Forall PPS b -> s2_block b = true -> forallb noimp_stmt b = true ->
+  forall stk s, pairs (vblock true b stk s) = pairs s.
+Proof.
+  induction b as [|x b IH]; intros HF Hs Hn stk s. reflexivity.
+  inversion HF as [|? ? Hx HF']; subst. cbn in Hs, Hn. apply andb_true_iff in Hs as [H1 H2]. apply andb_true_iff in Hn as [N1 N2].
+  unfold vblock in *. cbn [fold_left]. rewrite (IH HF' H2 N2). apply (Hx H1 N1).
+Qed.
+Lemma pairs_vdecos : forall decos, forallb (fun d : nat * expr => s2_expr (snd d)) decos = true ->
+  forall stk s, pairs (vdecos true decos stk s) = pairs s.
+Proof.
+  induction decos as [|[dl d] decos IH]; intros Hs stk s. reflexivity.
+  cbn in Hs. apply andb_true_iff in Hs as [H1 H2]. unfold vdecos in *. cbn [fold_left fst snd].
+  rewrite IH by exact H2. rewrite (pairs_vexpr d H1). reflexivity.
+Qed.
+Lemma pairs_targets : forall ts, forallb s1_target ts = true -> forall stk s,
+  pairs (fold_left (fun s t => vtarget true t stk s) ts s) = pairs s.
+Proof.
+  induction ts as [|t ts IH]; intros Hs stk s. reflexivity. cbn in Hs. apply andb_true_iff in Hs as [H1 H2].
+  cbn [fold_left]. rewrite IH by exact H2. apply pairs_vtarget. exact H1.
+Qed.
+Lemma pairs_with_items : forall items, forallb s2_with_item items = true -> forall stk s,
+  pairs (fold_left (with_item_step true stk) items s) = pairs s.
+Proof.
+  induction items as [|[x ot] items IH]; intros Hs stk s. reflexivity. cbn in Hs. apply andb_true_iff in Hs as [H12 H3].
+  unfold s2_with_item in H12. cbn [fst snd] in H12. apply andb_true_iff in H12 as [H1 H2].
+  cbn [fold_left]. rewrite IH by exact H3. unfold with_item_step. cbn [fst snd].
+  destruct ot as [t|]. rewrite pairs_vtarget by exact H2. apply (pairs_vexpr x H1). apply (pairs_vexpr x H1).
+Qed.
+
+Lemma pairs_stmt : forall x, PPS x.
+Proof.
+  induction x using stmt_ind'; try (intros Hs; discriminate); try (intros Hs Hn; discriminate); try rename e into e0; intros Hs Hn stk s.
+  - cbn [vstmt s2_stmt] in *. rewrite (pairs_vexpr e0 Hs). reflexivity.
+  - cbn [vstmt s2_stmt] in *. apply andb_true_iff in Hs as [H1 H2]. rewrite pairs_targets by exact H2. rewrite (pairs_vexpr v H1). reflexivity.
+  - cbn [vstmt s2_stmt] in *. apply andb_true_iff in Hs as [H12 H3]. apply andb_true_iff in H12 as [H1 H2].
+    apply is_nil_true in H1. subst a. rewrite pairs_store_name. rewrite (pairs_vexpr v H3). rewrite pairs_load. reflexivity.
+  - (* SDef *)
+    cbn [s2_stmt noimp_stmt] in Hs, Hn. rewrite s2_blk_fix in Hs. rewrite noimp_blk_fix in Hn.
+    apply andb_true_iff in Hs as [Hs Hbody]. apply andb_true_iff in Hs as [Hs Hret].
+    apply andb_true_iff in Hs as [Hs Hps]. apply andb_true_iff in Hs as [Hnm Hdecos].
+    destruct (s2_params_facts ps Hps) as [Hhdr _].
+    rewrite vstmt_def_eq_t. cbv zeta.
+    pose proof (pairs_vdecos decos Hdecos stk (with_ln s ln)) as E0.
+    pose proof (pairs_push (vdecos true decos stk (with_ln s ln)) stk true false false) as E1.
+    destruct (push (vdecos true decos stk (with_ln s ln)) stk true false false) as [stkA s1]. cbn [snd] in E1.
+    set (s3 := if Nat.ltb 0 (in_cd s1) then set_in_scope s1 (top stkA) [n_class] Plain else s1).
+    assert (E3 : pairs s3 = pairs s1). { unfold s3. destruct (Nat.ltb 0 (in_cd s1)). apply pairs_set_in_scope. reflexivity. }
+    rewrite varguments_eq_t.
+    set (s4 := fold_left (fun s n => store true s stkA [n] Plain) (pnames_finder ps) (vexpr_list true (hdr_finder ps) (removelast stkA) (with_ln s3 ln))).
+    assert (E4 : pairs s4 = pairs s3). { unfold s4. rewrite pairs_store_names, (pairs_vexpr_list (hdr_finder ps) (all_PPE _) Hhdr). reflexivity. }
+    set (s5 := voexpr true ret (removelast stkA) s4).
+    assert (E5 : pairs s5 = pairs s4). { unfold s5. destruct ret as [r|]; cbn [voexpr s2_oexpr] in *. apply (pairs_vexpr r Hret). reflexivity. }
+    pose proof (pairs_push (with_fd s5 true) stkA false false true) as E6.
+    destruct (push (with_fd s5 true) stkA false false true) as [stkB s6]. cbn [snd] in E6.
+    set (s7 := if Nat.eqb (in_cd s6) 0 then store true s6 stkB [nm] Plain else s6).
+    assert (E7 : pairs s7 = pairs s6). { unfold s7. destruct (Nat.eqb (in_cd s6) 0). apply pairs_store_name. reflexivity. }
+    rewrite pairs_store_name, pairs_pop, pairs_with_fd, pairs_pop. rewrite (pairs_block body H Hbody Hn).
+    rewrite E7, E6, pairs_with_fd, E5, E4, E3, E1, E0. reflexivity.
+  - (* SFor *)
+    cbn [s2_stmt noimp_stmt] in Hs, Hn. rewrite !s2_blk_fix in Hs. rewrite !noimp_blk_fix in Hn.
+    apply andb_true_iff in Hs as [H123 H4]. apply andb_true_iff in H123 as [H12 H3]. apply andb_true_iff in H12 as [H1 H2].
+    apply andb_true_iff in Hn as [U1 U2].
+    rewrite vstmt_for. rewrite (pairs_block o H0 H4 U2), (pairs_block b H H3 U1). rewrite pairs_vtarget by exact H1.
+    rewrite (pairs_vexpr it H2). reflexivity.
+  - (* SWhile *)
+    cbn [s2_stmt noimp_stmt] in Hs, Hn. rewrite !s2_blk_fix in Hs. rewrite !noimp_blk_fix in Hn.
+    apply andb_true_iff in Hs as [H12 H3]. apply andb_true_iff in H12 as [H1 H2]. apply is_nil_true in H3. subst o.
+    apply andb_true_iff in Hn as [U1 U2].
+    rewrite vstmt_while. unfold vblock at 1. cbn [fold_left]. rewrite (pairs_block b H H2 U1). rewrite (pairs_vexpr t H1). reflexivity.
+  - (* SIf *)
+    cbn [s2_stmt noimp_stmt] in Hs, Hn. rewrite !s2_blk_fix in Hs. rewrite !noimp_blk_fix in Hn.
+    apply andb_true_iff in Hs as [H12 H3]. apply andb_true_iff in H12 as [H1 H2]. apply is_nil_true in H3. subst o.
+    apply andb_true_iff in Hn as [U1 U2].
+    rewrite vstmt_if. unfold vblock at 1. cbn [fold_left]. rewrite (pairs_block b H H2 U1). rewrite (pairs_vexpr t H1). reflexivity.
+  - (* SWith *)
+    cbn [s2_stmt noimp_stmt] in Hs, Hn. rewrite !s2_blk_fix in Hs. rewrite !noimp_blk_fix in Hn. apply andb_true_iff in Hs as [H1 H2].
+    rewrite vstmt_with. rewrite (pairs_block b H H2 Hn). rewrite pairs_with_items by exact H1. reflexivity.
+  - (* STry *)
+    cbn [s2_stmt noimp_stmt] in Hs, Hn. rewrite !s2_blk_fix in Hs. rewrite !noimp_blk_fix in Hn.
+    apply andb_true_iff in Hs as [Habc Hd]. apply andb_true_iff in Habc as [Hab Hc]. apply andb_true_iff in Hab as [Ha Hb].
+    apply is_nil_true in Hb. subst hs.
+    apply andb_true_iff in Hn as [Hn Ud]. apply andb_true_iff in Hn as [Hn Uc]. apply andb_true_iff in Hn as [Ua _].
+    rewrite vstmt_try_nohandler. rewrite (pairs_block f H2 Hd Ud), (pairs_block o H1 Hc Uc), (pairs_block b H Ha Ua). reflexivity.
+  - reflexivity.
+Qed.
